@@ -1313,7 +1313,9 @@ class CircuitIR(AbstractBaseIR):
         """
         try:
             v = self[var]
-        except KeyError:
+        except (KeyError, AttributeError):
+            # (AttributeError: the first component of a frontend path, e.g. a node called `t`, is itself the name of a
+            # backend variable, which has no sub-items)
             v = self._front_to_back[var]
         return v.name if get_key else v
 
